@@ -375,6 +375,82 @@ pub fn check_case(c: &Case, choices: &[u32], acc: &mut Acc) {
     }
 }
 
+
+// ---------- family: the same Rust identifier in two crates (multi-file mode) ----------
+
+const HOMONYM_RENAMES: [&str; 4] = ["none", "only-in-first-crate", "only-in-second-crate", "both-differently"];
+const HOMONYM_LINKS: [&str; 3] = ["independent", "second-imports-first-under-alias-free-use", "second-refers-by-qualified-path"];
+
+/// Two crates each define a typeshared `Account`; each refers to its own at several positions. In every generated
+/// file the references must resolve inside that file (or, TypeScript / Kotlin, through one of its imports).
+fn check_homonym_crates(renames: &'static str, link: &'static str, lang: Lang, prefixed: bool, choices: &[u32], acc: &mut Acc) {
+    let (r1, r2) = match renames {
+        "only-in-first-crate" => (Some("AccountV1"), None),
+        "only-in-second-crate" => (None, Some("AccountV2")),
+        "both-differently" => (Some("AccountV1"), Some("AccountV2")),
+        _ => (None, None),
+    };
+    let krate = |tag: &str, rename: Option<&str>, extra_use: &str, extra_field: &str| -> String {
+        let r = rename.map(|r| format!("#[serde(rename = \"{r}\")]\n")).unwrap_or_default();
+        format!(
+            "{extra_use}#[typeshare]\n{r}pub struct Account {{ pub id_{tag}: u32 }}\n\n#[typeshare]\npub struct Ledger{tag} {{ pub main: Account, pub all: Vec<Account>, pub maybe: Option<Account>, pub by_name: HashMap<String, Account>,{extra_field} }}\n\n#[typeshare]\n#[serde(tag = \"type\", content = \"content\")]\npub enum Event{tag} {{ Opened(Account), Moved {{ from: Account, to: Box<Account> }}, Closed }}\n\n#[typeshare]\npub type Accounts{tag} = Vec<Account>;\n"
+        )
+    };
+    let (use2, field2) = match link {
+        "second-imports-first-under-alias-free-use" => ("use alpha::LedgerA;\n".to_string(), " pub other: LedgerA".to_string()),
+        "second-refers-by-qualified-path" => (String::new(), " pub other: alpha::LedgerA".to_string()),
+        _ => (String::new(), String::new()),
+    };
+    let files = vec![
+        crate::pipeline::SrcFile { crate_name: "alpha".into(), path: "alpha/src/lib.rs".into(), source: krate("A", r1, "", "") },
+        crate::pipeline::SrcFile { crate_name: "beta".into(), path: "beta/src/lib.rs".into(), source: krate("B", r2, &use2, &field2) },
+    ];
+    let mut cfg = if prefixed { Cfg::prefixed() } else { Cfg::plain() };
+    cfg.multi_file = true;
+    acc.runs += 1;
+    let key = format!("{renames}|{link}|{prefixed}");
+    acc.inputs.insert(report::fnv64(&key));
+    acc.nontrivial.insert(report::fnv64(&format!("{key}|{}", lang.name())));
+    let o = crate::pipeline::run(&files, lang, &cfg);
+    let srcs: Vec<serde_json::Value> = files.iter().map(|f| json!({"crate": f.crate_name, "source": f.source})).collect();
+    let outs = match &o {
+        crate::pipeline::Outcome::Ok(m) => m.clone(),
+        other => {
+            acc.vios.add(Violation { sig: format!("C09|{}|two-crates|no-output:{}|renames={renames}|link={link}", lang.name(), other.kind()), detail: json!({"choices": choices, "crates": srcs, "failure": format!("{other:?}").chars().take(400).collect::<String>()}) });
+            return;
+        }
+    };
+    for (crate_name, text) in &outs {
+        let Ok(of) = crate::extract::extract(lang, text) else {
+            acc.out_of_scope += 1; // unparseable output is C10's business
+            continue;
+        };
+        let names = collect(&of, lang);
+        let mut visible: BTreeSet<String> = names.defined.iter().map(|d| d.0.clone()).collect();
+        for (_, imported) in &of.imports {
+            visible.extend(imported.iter().cloned());
+        }
+        for (n, site, owner) in &names.referenced {
+            acc.judgements += 1;
+            if visible.contains(n) {
+                continue;
+            }
+            // without an import mechanism (Swift, Scala, Go, Python) a name of the other crate's file is visible only
+            // where the source really refers to the other crate
+            let other_defines = outs.iter().any(|(k, t)| k != crate_name && crate::extract::extract(lang, t).map(|x| x.defs.iter().any(|d| d.name() == n)).unwrap_or(false));
+            if other_defines && link != "independent" && n.contains("Ledger") {
+                continue;
+            }
+            acc.vios.add(Violation {
+                sig: format!("C09|{}|two-crates|dangling-reference|site={site}|renames={renames}|link={link}|in-crate={crate_name}", lang.name()),
+                detail: json!({"choices": choices, "lang": lang.name(), "prefixed": prefixed, "crates": srcs, "file_of_crate": crate_name, "output": text, "dangling_reference": n, "in_definition": owner,
+                               "defined_in_this_file": names.defined.iter().map(|d| d.0.clone()).collect::<Vec<_>>(), "imports": of.imports}),
+            });
+        }
+    }
+    acc.outcomes.insert(report::fnv64(&format!("{}|{}", lang.name(), outs.len())));
+}
+
 fn controls(rep: &mut Report) {
     let canned = "typealias PAliasO = String\n\n@Serializable\ndata class PRef (\n\tval r: PAliasR\n)\n";
     match crate::extract::extract(Lang::Kotlin, canned) {
@@ -406,6 +482,25 @@ pub fn run(args: &[String]) -> i32 {
         u64::MAX,
     );
     merge(&mut rep, "references", accs, &stats, json!({"target_kinds": TARGET_KINDS, "target_renamed": [false, true], "positions": POSITIONS, "generic_parameter_carriers": PARAM_CARRIERS, "struct_variant_identifiers": VARIANT_IDENTS, "referrer_renamed": [false, true], "languages": 6, "configs": 2}));
+    {
+        let (accs, stats) = explore(
+            |ch| {
+                ch.choose("renames", HOMONYM_RENAMES.len());
+            },
+            |ch, acc: &mut Acc| {
+                let renames = *ch.pick("renames", &HOMONYM_RENAMES);
+                let link = *ch.pick("link", &HOMONYM_LINKS);
+                let lang = *ch.pick("lang", &ALL_LANGS);
+                let prefixed = ch.flag("cfg");
+                check_homonym_crates(renames, link, lang, prefixed, &ch.choices(), acc);
+            },
+            Mode::Product,
+            1,
+            report::threads(),
+            u64::MAX,
+        );
+        merge(&mut rep, "same_identifier_in_two_crates", accs, &stats, json!({"serde_rename": HOMONYM_RENAMES, "link_between_crates": HOMONYM_LINKS, "reference_positions": ["field", "Vec", "Option", "map value", "payload", "struct-variant field", "Box", "alias"], "languages": 6, "configs": 2, "mode": "multi-file"}));
+    }
     let amb_k = if rep.thorough() { 3 } else { 2 };
     super::common::ambient_family(&mut rep, "ambient_variations", amb_k + 1, |ch| { gen(ch); }, |ch, acc| {
         let c = gen(ch);
